@@ -30,7 +30,9 @@ EXPLANATION = (
   "no case folding between the spec and the regex match, and a memo of parsed schedules is keyed "
   "by the spec itself. Conditions are read from the CFG (either polarity, early exits, chained "
   "conditional expressions or if/return sequences), operands through the locals that name them. "
-  "Not decided: the series arithmetic (Delta.add_to, DATEADD, the slot ordering assumption), "
+  "(R6) Delta.add_to adds the months to the unshifted base and the timedelta afterwards (the two "
+  "do not commute). "
+  "Not decided: the rest of the series arithmetic (DATEADD itself, the slot ordering assumption), "
   "overflow of huge counts.")
 
 M = "functions.schedule"
@@ -47,6 +49,7 @@ def check(run, repo, tier):
   r3_units(run, w, mod, ce)
   r4_errors(run, w, mod, ce)
   r5_exact_text(run, w, mod, ce)
+  r6_months_first(run, w, mod)
 
 
 def _roles(w, mod):
@@ -78,6 +81,72 @@ def _roles(w, mod):
 
 
 _ROLE_CACHE = {}
+
+
+def r6_months_first(run, w, mod):
+  """Calendar months and a timedelta do not commute (Apr 1 + 1 month + 30 days is May 31, Apr 1
+  + 30 days + 1 month is Jun 1), so the class that keeps both parts must add the months to the
+  unshifted base and the timedelta afterwards."""
+  R6 = run.rule("C35-R6", "a delta of months and a timedelta is applied months-first: the date "
+                "handed to the month addition does not already contain the timedelta part",
+                floor=1)
+  sites = []
+  for cls in mod.classes.values():
+    init = cls.methods.get("__init__")
+    if init is None:
+      continue
+    td_fields = {t.attr for s_ in ast.walk(init.node) if isinstance(s_, ast.Assign)
+                 for t in s_.targets if isinstance(t, ast.Attribute) and text(t.value) == "self" and
+                 isinstance(s_.value, ast.Call) and (dotted(s_.value.func) or "").endswith("timedelta")}
+    if not td_fields:
+      continue
+    for fi in cls.methods.values():
+      for c in calls_in(fi.node.body):
+        mk = [k for k in c.keywords if k.arg == "months" and
+              isinstance(k.value, ast.Attribute) and text(k.value.value) == "self"]
+        if mk and c.args:
+          sites.append((fi, c, td_fields))
+  need_ = sites or None
+  if need_ is None:
+    raise AnalysisError("%s: the month addition of the months+timedelta class (a call with "
+                        "months=self.<field>) not identified in the code as it is now written: "
+                        "cannot decide" % M)
+  n = 0
+  for fi, c, td_fields in sites:
+    if any(isinstance(x, (ast.For, ast.While, ast.Try)) for x in walk_no_nested(fi.node)):
+      raise AnalysisError("%s: loop or try around the month addition: cannot decide" % fi.qualname)
+
+    def has_td(e, tainted):
+      for x in ast.walk(e):
+        if isinstance(x, ast.Attribute) and text(x.value) == "self" and x.attr in td_fields:
+          return True
+        if isinstance(x, ast.Name) and x.id in tainted:
+          return True
+      return False
+    tainted = set()
+    stmts = sorted([x for x in walk_no_nested(fi.node) if isinstance(x, (ast.Assign, ast.AugAssign))
+                    and x.lineno < c.lineno or
+                    (isinstance(x, (ast.Assign, ast.AugAssign)) and x.lineno == c.lineno and
+                     x.col_offset < c.col_offset and not any(y is c for y in ast.walk(x)))],
+                   key=lambda x: (x.lineno, x.col_offset))
+    for st in stmts:
+      tg = st.targets if isinstance(st, ast.Assign) else [st.target]
+      names = {t.id for t in tg if isinstance(t, ast.Name)}
+      if has_td(st.value, tainted):
+        tainted |= names            # may-contain: an assignment on any earlier branch counts
+      elif isinstance(st, ast.Assign) and not _conditional(fi.node, st):
+        tainted -= names
+    ok = not has_td(c.args[0], tainted)
+    run.ob(R6, fi.qualname, "%s" % short(c, 70),
+           "the base of the month addition is free of the timedelta part (months first, then the "
+           "timedelta)", ok, fi=fi, node=c)
+    n += 1
+  return n
+
+
+def _conditional(fnode, st):
+  """is `st` nested in an if (so a clean re-assignment may not happen on every path)"""
+  return not any(x is st for x in fnode.body)
 
 
 def _keep(mod, ce):
@@ -883,6 +952,13 @@ def _memo_stores(run, R5, w, mod, fn, v, spec):
 
 S = "sandbox/grist/functions/schedule.py"
 VARIANTS = [
+  ("timedelta-before-months", S,
+   "    return datetime.combine(DATEADD(dtime, months=self._months), dtime.timetz()) + self._timedelta\n",
+   "    dtime = dtime + self._timedelta\n"
+   "    return datetime.combine(DATEADD(dtime, months=self._months), dtime.timetz())\n", "C35-R6"),
+  ("timedelta-inside-month-addition", S,
+   "DATEADD(dtime, months=self._months), dtime.timetz()) + self._timedelta",
+   "DATEADD(dtime + self._timedelta, months=self._months), dtime.timetz())", "C35-R6"),
   ("parser-key-misspelt", S, "  'mday': _parse_slot_mday,", "  'month_day': _parse_slot_mday,",
    "C35-R1"),
   ("allowed-slot-type-unknown", S, "  'hours': ('mins', 'delta'),", "  'hours': ('minutes', 'delta'),",
